@@ -16,6 +16,10 @@ CHECKS = {
    text="Every container configuration within the bounds (all tag subsets of <=3 (thorough 4) tables from 6 tags x every length from the menu, 3 flavours, directory/data order deviations, all TTC sharing patterns of a 4-table pool over <=2 (3) members with header versions 1/2, all 2^k WOFF compression assignments with metadata/private blocks) is built by independent builders and queried through OpenTypeFont/WoffFont/FontData for every present tag, absent tags and member indices beyond the end; the configuration itself is the oracle.",
    note="Trusted: otmodel::sfnt builders and flate2 (zlib backend) as the compressor; table_tags compared as a set; second flate2 backend not exercised.",
    technique="exhaustive choice-tree enumeration of container configurations; byte-equality oracle"),
+ "C13": dict(engine="mcx-choice-tree", cat="model_checking",
+   text="Every axis triple min<=default<=max from an 11-value landmark menu (286 triples incl. degenerate and +-32768 extremes) x every valid avar map with <=2 (thorough 3) interior knots x user values at every landmark, midpoint and knot pre-image +-2 raw units (thorough: every 2.14 grid value x 4 sub-unit offsets on unit axes, ~1.3e5 values per map) is normalised by FvarTable::normalize on independently encoded fvar/avar tables and compared with exact rational arithmetic within the tolerance the property states; exactness at min/default/max, range, monotonicity and tuple-length rejection are checked; all 65536 F2Dot14 values, all 16.16 values in [-2,2) and all f32 with <=17 fractional bits in (-4,4) go through the fixed-point conversions.",
+   note="Trusted: exact i128 rational evaluator of the OpenType normalisation text; enumerated avar maps are valid and monotone; one axis per font except the tuple-length/independence cases.",
+   technique="exhaustive enumeration of axes x avar maps x coordinates against exact rational arithmetic"),
 }
 
 NOT_YET = {
